@@ -926,5 +926,5 @@ func c07R11(p *core.Program, r *core.Report) {
 		}
 	}
 	r.Count("parentless_fallback_lookups", n)
-	r.Require("parentless_fallback_lookups", n, 2)
+	r.Require("parentless_fallback_lookups", n, 1)
 }
